@@ -18,6 +18,7 @@ PUB_UNARY = ['is_void', 'is_integral', 'known_size_in_bytes_as_word_member', 'is
              'is_wellformed', 'can_be_sized', 'can_be_struct_member', 'can_be_word_member', 'can_be_constant',
              'can_be_variable', 'can_be_parameter', 'can_be_returned', 'pointer_depth', 'is_slice_pointer',
              'min_i128', 'max_u128']
+SIGNED_RESULTS = {'min_i128'}
 PUB_BINARY = ['can_be_declared_as', 'can_be_concretization_of', 'can_coerce_into', 'can_coerce_address_into',
               'can_autoderef_into']
 
@@ -191,6 +192,8 @@ class Session:
                     vtlib.assignment(self.b, y, self.kinds, p)
                 asg_cache[key] = p
             sv = self.symbolic_to_str(vtlib.eval_concrete_any(term, asg_cache[key], self.universe))
+            if f in SIGNED_RESULTS and sv.isdigit() and int(sv) >= (1 << 127):
+                sv = str(int(sv) - (1 << 128))
             if sv != r:
                 mism.append((f, vtlib.wire(x), vtlib.wire(y) if y else None, sv, r))
             if r not in ('false', '0', 'none'):
@@ -234,6 +237,8 @@ class Session:
             res = self.native(lines)
             for (f, ar), r in zip(meta, res):
                 sym = self.symbolic_to_str(vtlib.model_eval_any(viol['model'], self.run(f, ar)))
+                if f in SIGNED_RESULTS and sym.isdigit() and int(sym) >= (1 << 127):
+                    sym = str(int(sym) - (1 << 128))
                 out[f] = {'native': r, 'encoding': sym}
                 if sym != r:
                     raise Inconclusive('counterexample does not reproduce natively for %s: encoding %s, native %s'
